@@ -328,7 +328,11 @@ impl Ingester {
                         return Err(e);
                     }
                 };
+                #[cfg(feature = "verif-hooks")]
+                crate::verif_hooks::pause("write:after_wal_append").await;
                 self.last_wal_seq.store(seq, Ordering::Release);
+                #[cfg(feature = "verif-hooks")]
+                crate::verif_hooks::pause("write:after_seq_store").await;
             } else if self.config.wal.enabled {
                 telemetry::record_wal_operation("append", "error");
                 if !self.wal_warned.swap(true, Ordering::Relaxed) {
@@ -593,6 +597,8 @@ impl Ingester {
         let mut pending_batch = Some(batch);
 
         loop {
+            #[cfg(feature = "verif-hooks")]
+            crate::verif_hooks::pause("append:before_lock").await;
             let mut buffer = self.buffer.write().await;
 
             let incoming = pending_batch
@@ -652,6 +658,8 @@ impl Ingester {
         let path = self.generate_path();
         debug!(path = %path, size_bytes = parquet_size, "Writing Parquet file");
 
+        #[cfg(feature = "verif-hooks")]
+        crate::verif_hooks::pause("flush:before_upload").await;
         // Upload to object storage
         self.object_store
             .put(&path.clone().into(), parquet_bytes.into())
@@ -666,6 +674,8 @@ impl Ingester {
             size_bytes: parquet_size,
         };
         self.metadata.register_chunk(&path, &chunk_metadata).await?;
+        #[cfg(feature = "verif-hooks")]
+        crate::verif_hooks::pause("flush:after_register").await;
 
         // Broadcast to streaming query subscribers (legacy)
         if let Err(e) = self.broadcast.send(combined.clone()) {
@@ -688,8 +698,12 @@ impl Ingester {
         }
 
         // Truncate WAL after successful flush
+        #[cfg(feature = "verif-hooks")]
+        crate::verif_hooks::pause("flush:before_seq_load").await;
         let flushed_up_to = self.last_wal_seq.load(Ordering::Acquire);
         if flushed_up_to > 0 {
+            #[cfg(feature = "verif-hooks")]
+            crate::verif_hooks::pause("flush:before_truncate").await;
             if let Some(wal) = self.wal.as_ref() {
                 if let Err(e) = wal.lock().await.truncate_before(flushed_up_to).await {
                     telemetry::record_wal_operation("truncate", "error");
@@ -699,6 +713,8 @@ impl Ingester {
             }
             self.last_flushed_seq
                 .store(flushed_up_to, Ordering::Release);
+            #[cfg(feature = "verif-hooks")]
+            crate::verif_hooks::pause("flush:before_persist").await;
             if let Err(e) = persist_flushed_seq(&self.config.wal.wal_dir, flushed_up_to) {
                 telemetry::record_wal_operation("persist_flushed_seq", "error");
                 warn!(error = %e, "Failed to persist flushed WAL sequence number");
@@ -707,6 +723,8 @@ impl Ingester {
             }
         }
 
+        #[cfg(feature = "verif-hooks")]
+        crate::verif_hooks::pause("flush:after_persist").await;
         // Update last flush time
         *self.last_flush.write().await = Instant::now();
 
@@ -721,6 +739,8 @@ impl Ingester {
         loop {
             tokio::select! {
                 _ = interval.tick() => {
+                    #[cfg(feature = "verif-hooks")]
+                    crate::verif_hooks::pause("timer:tick").await;
                     let should_flush = {
                         let buffer = self.buffer.read().await;
                         let last_flush = self.last_flush.read().await;
@@ -732,6 +752,8 @@ impl Ingester {
                             let mut buffer = self.buffer.write().await;
                             buffer.take()
                         };
+                        #[cfg(feature = "verif-hooks")]
+                        crate::verif_hooks::pause("timer:after_take").await;
 
                         if let Err(e) = self.flush_batches(batches).await {
                             error!("Flush timer failed: {}", e);
